@@ -126,6 +126,17 @@ def _attr_of(e):
         e["op"], e.get("attr"))
 
 
+class _Own(dict):
+    """objs, except that names present in ``own`` resolve to the list's own element."""
+
+    def __init__(self, objs, own):
+        super().__init__(objs)
+        self.own = own
+
+    def __getitem__(self, k):
+        return self.own[k] if k in self.own else super().__getitem__(k)
+
+
 def _iterable(values, arg_as):
     """extend / += take any iterable, like list does: a list, a tuple or a one-shot iterator."""
     if arg_as == "tuple":
@@ -146,6 +157,10 @@ def apply_live(objs, e, spec_before):
         obj = objs[e["obj"]]
         lst = getattr(obj, e["attr"])
         m, args = e["method"], e["args"]
+        if e.get("arg_as") == "own":
+            # the caller passes elements taken from the list itself (lst.append(lst[0])), not the plain objects
+            own = {S.key_of(x): x for x in lst}
+            objs = _Own(objs, own)
         if m == "append":
             lst.append(objs[args[0]])
         elif m == "insert":
